@@ -342,7 +342,8 @@ TOO_HEAVY = [
     "piecewise/budget",
     "piecewise/square",
     "set-then-box/square",
-    "two-rows/square"
+    "two-rows/square",
+    "late-forall/square"
 ]
 TIMES = {"late-forall/budget": 91.0, "ldr-full/box-per-component": 94.0, "late-forall/box-per-component": 93.0, "set-then-box/budget": 90.0, "le/square": 122.0, "ge/budget": 14.6, "ge/square": 121.5, "two-rows/square": 121.6, "eq/square": 14.2, "default-set/budget": 65.2, "default-set/box-ball": 136.7, "default-set/square": 243.2, "default-set/list-and-args": 14.2, "maxmin-own-set/budget": 14.7, "maxmin-own-set/square": 121.9, "maxmin-own-set/list-and-args": 14.4, "ldr-full/box": 5.2, "ldr-full/budget": 138.6, "ldr-full/ball": 5.8, "ldr-full/shifted-ball": 121.5, "ldr-full/ellipsoid": 122.1, "ldr-full/box-ball": 139.2, "ldr-full/square": 366.5, "ldr-diag/budget": 102.3, "ldr-diag/ellipsoid": 18.9, "ldr-diag/square": 364.2, "ldr-one/budget": 135.4, "ldr-one/ellipsoid": 121.7, "ldr-one/box-ball": 14.2, "ldr-one/square": 244.3, "piecewise/budget": 40.6, "piecewise/box-ball": 172.2, "piecewise/square": 245.4, "interleaved-sets/budget": 24.3, "interleaved-sets/box-ball": 121.7, "interleaved-sets/square": 121.4, "le/exp": 120.4}
 QUICK_SETS = ["box", "box-per-component", "polytope", "ball", "ellipsoid", "box-ball", "budget", "abs"]
